@@ -34,7 +34,8 @@ COMPONENTS = {
 }
 EXPECTED_PROBES = ('head_request', 'bodiless_status', 'custom_reason', 'stream_file', 'stream_iter',
                    'stream_raised', 'send_failed', 'abandoned', 'sse', 'sse_disconnect', 'file_wrapper',
-                   'custom_response_class', 'preset_content_length', 'cookies', 'several_sources')
+                   'custom_response_class', 'preset_content_length', 'cookies', 'several_sources',
+                   'rendered_before_final_assignment', 'serialize_failed')
 ASSUMPTIONS = (
     'with media set, a preset Content-Type is one the default handlers serve (otherwise the documented 415 path applies)',
     'typeless clause read as: no default type injected when the application set neither content_type nor media',
@@ -83,6 +84,10 @@ def gen_spec(ch, asgi):
     s['extra_headers'] = ch.draw(3, 'extra_headers')
     s['custom_resp'] = ch.choice([None, None, None, 'bytes', 'none'], 'custom_resp')
     s['block'] = ch.choice([1, 2, 3, 5, 8, 16, 8192], 'block')
+    # a history on the response object: an earlier media document is set and rendered through the
+    # public render_body() (what an ETag / signing middleware does) before the final sources are
+    # assigned; the final assignment must win
+    s['prerender'] = [None, None, None, 'decoy', 'same'][ch.draw(5, 'prerender')] if s['media'] is not None else None
     return s
 
 
@@ -298,25 +303,35 @@ def run(ctx):
                 send_cancel = j
         if spec['sse'] and ctx.opportunity('sse_client_disconnects'):
             sse_disc = True
+    # the media handler fails while the framework renders the body (after responder and
+    # middleware completed): the error document sent instead must be framed like any response
+    ser_fail = False
+    if spec['media'] is not None and spec['text'] is None and spec['data'] is None and spec['sse'] is None \
+            and spec['custom_resp'] != 'bytes' and ctx.opportunity('media_serialize_raises'):
+        ser_fail = True
+        spec['prerender'] = None
     send_suspends = bool(ch.draw(2, 'send_suspends')) if asgi else False
     ctx.plan = {'iface': ['wsgi', 'wsgi+file_wrapper', 'asgi'][iface], 'spec': spec,
                 'fault': list(fault) if fault else None, 'send_fail': send_fail, 'send_cancel': send_cancel, 'abandon': abandon,
-                'sse_disconnect': sse_disc}
+                'sse_disconnect': sse_disc, 'serialize_fails': ser_fail}
     ctx.plan_key = json.dumps(ctx.plan, sort_keys=True)
     cnt = Counter()
     status_value = resolve_status(spec['status'][0])
-    code = spec['status'][1]
+    code = 500 if ser_fail else spec['status'][1]
 
     def fill(req, resp):
         resp.status = status_value
         if spec['content_type'] is not None:
             resp.content_type = spec['content_type']
+        if spec['prerender']:
+            resp.media = {'stale': 'an earlier document'} if spec['prerender'] == 'decoy' else spec['media']
+            yield 'render'
         if spec['text'] is not None:
             resp.text = spec['text']
         if spec['data'] is not None:
             resp.data = spec['data'].encode('latin-1')
-        if spec['media'] is not None:
-            resp.media = spec['media']
+        if spec['media'] is not None and spec['prerender'] != 'same':
+            resp.media = {'unserializable': object()} if ser_fail else spec['media']
         if spec['stream'] is not None:
             if spec['stream'].get('set_stream'):
                 # set_stream(stream, content_length): the declared length goes out as Content-Length
@@ -333,6 +348,7 @@ def run(ctx):
         if spec['extra_headers'] >= 2:
             resp.append_header('X-Multi', 'a')
             resp.append_header('X-Multi', 'b')
+        yield 'done'
 
     custom = spec['custom_resp']
     base = falcon.asgi.Response if asgi else falcon.Response
@@ -356,7 +372,10 @@ def run(ctx):
     if asgi:
         class Res(object):
             async def on_get(self, req, resp):
-                fill(req, resp)
+                for what in fill(req, resp):
+                    if what == 'render':
+                        ctx.probe('rendered_before_final_assignment')
+                        await resp.render_body()
                 if spec['sse'] is not None:
                     async def emitter():
                         for ev in spec['sse']:
@@ -376,7 +395,10 @@ def run(ctx):
     else:
         class Res(object):
             def on_get(self, req, resp):
-                fill(req, resp)
+                for what in fill(req, resp):
+                    if what == 'render':
+                        ctx.probe('rendered_before_final_assignment')
+                        resp.render_body()
             on_post = on_head = on_options = on_get
 
         class A(falcon.App):
@@ -538,6 +560,9 @@ def run(ctx):
         streamed = True
     elif custom == 'bytes':
         want = b'CUSTOM-BODY'
+    elif ser_fail:
+        ctx.probe('serialize_failed')
+        want = None
     elif spec['text'] is not None:
         want = spec['text'].encode('utf-8')
     elif spec['data'] is not None:
@@ -556,7 +581,11 @@ def run(ctx):
                 method, spec['status'][0], len(body), body[:40]), what='HEAD' if method == 'HEAD' else 'status',
                 custom_reason=isinstance(spec['status'][0], str) and code_to_default(spec['status'][0]), **sig)
     else:
-        if isinstance(want, tuple):
+        if want is None:
+            if not body and not faulted:
+                ctx.violate('resp.precedence', 'serialization of resp.media failed: no error document was sent',
+                            src='error_document', **sig)
+        elif isinstance(want, tuple):
             try:
                 ok = json.loads(body.decode('utf-8')) == want[1]
             except Exception:
@@ -594,6 +623,8 @@ def run(ctx):
         ctx.violate('resp.headers', '%d Set-Cookie lines for %d cookies' % (n_ck, spec['cookies']), **sig)
     # nothing but what the application (or the documented framing) put there
     allowed = {'content-type', 'content-length', 'set-cookie'}
+    if ser_fail:
+        allowed.add('vary')          # the error document is negotiated: Vary: Accept
     if spec['extra_headers'] >= 1:
         allowed.add('x-one')
     if spec['extra_headers'] >= 2:
